@@ -322,6 +322,25 @@ def check_C03(tier):
         if had and (last.rc == 0 or last.completed):
             R.report("C03", "re-run with the leftover temp dir of a task without outputs in place exited with status %s, completed=%s (history %s)" % (last.rc, last.completed, h.label), h)
         elif had: chk.nontrivial.add("hist:Z16L:" + h.label)
+    # finalized outputs that are EMPTY files (published by rename like any other): after crash and cleanup their tasks are not executed again
+    emp = dict(name="EMPTYOUT", max=1, bufsize=2,
+               procs=[zoo.src("s", zoo.items(2)), dict(name="a", kind="cmd", ins=["in"], outs=["out"], arg="test -e {i:in} && : > {o:out}"),
+                      dict(name="b", kind="cmd", ins=["x"], outs=["out"], arg="sleep 0.4; cat {i:x} > {o:out}; echo done >> {o:out}")],
+               edges=[zoo.E("s.out", "a.in"), zoo.E("a.out", "b.x")])
+    hs = []
+    for spec in ("cmd.start@b|#1", "cmd.end@b|#1", "cmd.start@b|#2"):
+        h = fs.History(emp, [("run", {"VERIF_CRASH": spec}), ("cleanup",), ("run", None)], label="crash %s after tasks with empty outputs were finalized, cleanup, re-run" % spec); h.accept = False; h.exp = None
+        hs.append(h)
+    for h in pmap(fs.run_history, hs, workers=3):
+        chk.evaluations += len(h.runs)
+        first, last = h.runs[0], h.runs[-1]
+        done = {ev["task"] for ev in first.events if ev["ev"] == "exec.fin"}
+        again = sorted({ev["task"] for ev in last.events if ev["ev"] == "cmd.start"} & done)
+        if last.timeout or last.deadlock or last.rc != 0 or not last.completed:
+            R.report("C03", "re-run after cleanup did not complete (history %s): rc=%s %s" % (h.label, last.rc, last.stderr[-160:].replace("\n", " | ")), h)
+        elif again:
+            R.report("C03", "tasks whose (empty) outputs had been finalized before the crash were executed again by the re-run: %s (history %s)" % (again[:3], h.label), h)
+        elif done: chk.nontrivial.add("hist:EMPTYOUT:" + h.label)
     # random external kills while slow commands run
     inst = FB(); inst["ctl"] = {"ALL.sleep": "0.15"}
     hs = []
